@@ -1,7 +1,7 @@
 From Coq Require Import Extraction ExtrOcamlBasic.
-From PT Require Import Model.Base Model.Stack Model.Texpr Model.Sem Model.Tok Model.Tokens Model.Ast Model.Translate Model.Getter.
+From PT Require Import Model.Base Model.Stack Model.Texpr Model.Sem Model.Tok Model.Tokens Model.Ast Model.Translate Model.Getter Model.GetterSpec.
 Extraction Language OCaml.
 Set Extraction Output Directory ".".
 Extraction "getter_model.ml" rule_getters getter_of getter lookup gtype ref_arg skip_of_kind spec_type
-  eval_g call_getter flatten_gval direct_refs mention_refs rule_key
+  spec_val eval_g call_getter flatten_gval direct_refs mention_refs rule_key
   tparse try_parse_partial tokens st0 inp_of_str inp_of_pos inp_of_span i_start.
